@@ -22,7 +22,7 @@ import (
 
 func init() {
 	caseFamilies["c11"] = &caseFamily{
-		Shard: 1, Par: 12,
+		Shard: 1, Par: 16,
 		Count: func(tier string) int { return len(c11cases(tier)) },
 		Run: func(out *rec.Out, idx int, rng *rec.Rng, tier string, stats map[string]int) {
 			c11run(out, c11cases(tier)[idx], rng, stats)
@@ -210,8 +210,9 @@ func c11cases(tier string) []c11case {
 	for si, s := range c11shapes {
 		letters := c11letters(s)
 		// 1. every script up to a length (structured enumeration)
+		// quick: every script up to length 3 (length 4 for the smallest shape); thorough: one longer
 		maxLen := 3
-		if len(letters) <= 4 {
+		if si == 0 {
 			maxLen = 4
 		}
 		if thorough {
@@ -241,16 +242,15 @@ func c11cases(tier string) []c11case {
 		a0 := c11step{'a', 0}
 		for e := range s.evs {
 			d := c11step{'d', e}
-			ks := []int{4, 6}
+			ks := []int{4}
 			if thorough {
 				ks = []int{4, 5, 6, 7, 8}
+			} else if e == 0 && (si == 0 || s.name == "merge2") {
+				ks = []int{4, 6}
 			}
 			for _, k := range ks {
-				if e > 0 && k != 4 && !thorough {
-					continue
-				}
 				cs = append(cs, c11case{shape: si, steps: rep(d, k), tag: "fill"})
-				if k <= 6 {
+				if k <= 6 && (thorough || e == 0) {
 					cs = append(cs, c11case{shape: si, steps: cat(rep(d, k), []c11step{a0, {'d', 0}, a0, a0}), tag: "fill-arm"})
 				}
 			}
@@ -263,7 +263,7 @@ func c11cases(tier string) []c11case {
 			cs = append(cs, c11case{shape: si, steps: cat(rep(c11step{'d', 0}, k), []c11step{{'s', 0}, a0, {'d', 0}, a0}), tag: "prestart"})
 		}
 		// 4. seeded longer scripts (5..8 deliveries, arming in between)
-		nr := 6
+		nr := 4
 		if thorough {
 			nr = 60
 		}
